@@ -44,7 +44,7 @@ def lifetime(rng, kind, steps, hist):
 
 
 def generate(rng, tier):
-    n, steps = {"quick": (16, 60), "thorough": (200, 300), "search": (60, 80)}.get(tier, (16, 60))
+    n, steps = {"quick": (32, 60), "thorough": (200, 300), "search": (60, 80)}.get(tier, (16, 60))
     cases = []
     for i in range(n):
         kind = ["visual", "bvisual", "visual", "sort"][i % 4]
